@@ -632,8 +632,14 @@ func uniq(xs ...int) []int {
 }
 
 func (m *c03Machine) Enabled() []pt.Action {
-	calls := c03Calls(m.ref, m.w.P.Alpha)
-	as := append([]pt.Action{}, calls...)
+	all := c03Calls(m.ref, m.w.P.Alpha)
+	as := append([]pt.Action{}, all...)
+	var calls []pt.Action // handles obtained outside a transaction cannot be used inside one
+	for _, c := range all {
+		if !strings.HasPrefix(c.T, "@") {
+			calls = append(calls, c)
+		}
+	}
 	// transactions: a successful and a failing body over the first two calls, and one over a valid+invalid pair
 	if len(calls) >= 2 {
 		as = append(as, pt.Action{Op: "tx", Sub: []pt.Action{calls[0], calls[1]}})
